@@ -3,7 +3,7 @@
      0 agree   1 violation (the specification is false of what the
      implementation did)   2 divergence (implementation <> model although the
      specification holds)   9 malformed case   1xx known-finding class xx *)
-From DS Require Import Base Versions.
+From DS Require Import Base Versions Semver.
 
 Definition V_AGREE : N := 0.
 Definition V_VIOLATION : N := 1.
@@ -21,7 +21,16 @@ Inductive c05case :=
 | CRange (r : vrange N) (prec : list N) (n : N)
          (constructible : bool) (bits : list bool) (none_bit : bool)
 | CPair (r1 r2 : vrange N) (prec : list N) (c12 c21 : bool)
-| CHeader (h : hdr) (parsed : option N) (max : str) (obs : res N (N * bool)).
+| CHeader (h : hdr) (parsed : option N) (max : str) (obs : res N (N * bool))
+  (* the same header case evaluated with the concrete semver model: the
+     observation is the routed version, printed *)
+| CHeaderS (h : hdr) (max : str) (obs : res N str)
+  (* the concrete semver model against the crate: does each string parse, and
+     how do the two versions compare (0 Lt, 1 Eq, 2 Gt), under Ord and under
+     precedence *)
+| CSemver (a b : str) (pa pb : bool) (ord prec : option N).
+
+Definition cmp_code (c : comparison) : N := match c with Lt => 0 | Eq => 1 | Gt => 2 end.
 
 Definition ncmp := N.compare.
 
@@ -114,4 +123,28 @@ Definition judge (c : c05case) : N :=
         | _, _ => false
         end in
       if spec then (if agree then V_AGREE else V_DIVERGE) else V_VIOLATION
+  | CHeaderS h max obs =>
+      match Semver.parse max with
+      | None => V_MALFORMED
+      | Some mx =>
+          let model := extract_version version Semver.cmp Semver.parse mx h in
+          match obs, model with
+          | Ok s, Ok v => if str_eqb s (Semver.print v) then V_AGREE else V_VIOLATION
+          | Err c, Err c' => if (400 <=? c) && (c <? 500) then (if c =? c' then V_AGREE else V_DIVERGE)
+                             else V_VIOLATION
+          | Ok _, Err _ => V_VIOLATION   (* a handler would run for a version the policy must refuse *)
+          | Err _, Ok _ => V_VIOLATION   (* a version the policy must accept is refused *)
+          end
+      end
+  | CSemver a b pa pb ord prec =>
+      let ma := Semver.parse a in let mb := Semver.parse b in
+      let okp := bool_eqb pa (match ma with Some _ => true | None => false end)
+                 && bool_eqb pb (match mb with Some _ => true | None => false end) in
+      let okc := match ma, mb with
+                 | Some x, Some y =>
+                     option_eqb N.eqb ord (Some (cmp_code (Semver.cmp x y)))
+                     && option_eqb N.eqb prec (Some (cmp_code (Semver.prec_cmp x y)))
+                 | _, _ => match ord, prec with None, None => true | _, _ => false end
+                 end in
+      if okp && okc then V_AGREE else V_DIVERGE
   end.
